@@ -105,90 +105,90 @@ func xkv(keys, vals [][]byte) *sx {
 
 // knownSyms: the symbols for which Run/RunC10.v defines a constant s_<name>.
 var knownSyms = map[string]bool{
-	"add": true,
-	"all": true,
-	"answered": true,
-	"append": true,
-	"bcc": true,
-	"before": true,
-	"body": true,
-	"bodysection": true,
+	"add":           true,
+	"all":           true,
+	"answered":      true,
+	"append":        true,
+	"bcc":           true,
+	"before":        true,
+	"body":          true,
+	"bodysection":   true,
 	"bodystructure": true,
-	"capability": true,
-	"cc": true,
-	"check": true,
-	"close": true,
-	"copy": true,
-	"create": true,
-	"delete": true,
-	"deleted": true,
-	"done": true,
-	"draft": true,
-	"envelope": true,
-	"examine": true,
-	"expunge": true,
-	"fast": true,
-	"fetch": true,
-	"flagged": true,
-	"flags": true,
-	"from": true,
-	"full": true,
-	"header": true,
-	"headerfields": true,
-	"idget": true,
-	"idle": true,
-	"idset": true,
-	"internaldate": true,
-	"keyword": true,
-	"larger": true,
-	"list": true,
-	"login": true,
-	"logout": true,
-	"lsub": true,
-	"messages": true,
-	"mime": true,
-	"move": true,
-	"new": true,
-	"noop": true,
-	"not": true,
-	"old": true,
-	"on": true,
-	"or": true,
-	"part": true,
-	"recent": true,
-	"rem": true,
-	"rename": true,
-	"rfc822": true,
-	"rfc822header": true,
-	"rfc822size": true,
-	"rfc822text": true,
-	"search": true,
-	"seen": true,
-	"select": true,
-	"sentbefore": true,
-	"senton": true,
-	"sentsince": true,
-	"seqset": true,
-	"set": true,
-	"since": true,
-	"smaller": true,
-	"starttls": true,
-	"status": true,
-	"store": true,
-	"subject": true,
-	"subscribe": true,
-	"text": true,
-	"to": true,
-	"uid": true,
-	"uidexpunge": true,
-	"uidnext": true,
-	"uidvalidity": true,
-	"unanswered": true,
-	"undeleted": true,
-	"undraft": true,
-	"unflagged": true,
-	"unkeyword": true,
-	"unseen": true,
-	"unselect": true,
-	"unsubscribe": true,
+	"capability":    true,
+	"cc":            true,
+	"check":         true,
+	"close":         true,
+	"copy":          true,
+	"create":        true,
+	"delete":        true,
+	"deleted":       true,
+	"done":          true,
+	"draft":         true,
+	"envelope":      true,
+	"examine":       true,
+	"expunge":       true,
+	"fast":          true,
+	"fetch":         true,
+	"flagged":       true,
+	"flags":         true,
+	"from":          true,
+	"full":          true,
+	"header":        true,
+	"headerfields":  true,
+	"idget":         true,
+	"idle":          true,
+	"idset":         true,
+	"internaldate":  true,
+	"keyword":       true,
+	"larger":        true,
+	"list":          true,
+	"login":         true,
+	"logout":        true,
+	"lsub":          true,
+	"messages":      true,
+	"mime":          true,
+	"move":          true,
+	"new":           true,
+	"noop":          true,
+	"not":           true,
+	"old":           true,
+	"on":            true,
+	"or":            true,
+	"part":          true,
+	"recent":        true,
+	"rem":           true,
+	"rename":        true,
+	"rfc822":        true,
+	"rfc822header":  true,
+	"rfc822size":    true,
+	"rfc822text":    true,
+	"search":        true,
+	"seen":          true,
+	"select":        true,
+	"sentbefore":    true,
+	"senton":        true,
+	"sentsince":     true,
+	"seqset":        true,
+	"set":           true,
+	"since":         true,
+	"smaller":       true,
+	"starttls":      true,
+	"status":        true,
+	"store":         true,
+	"subject":       true,
+	"subscribe":     true,
+	"text":          true,
+	"to":            true,
+	"uid":           true,
+	"uidexpunge":    true,
+	"uidnext":       true,
+	"uidvalidity":   true,
+	"unanswered":    true,
+	"undeleted":     true,
+	"undraft":       true,
+	"unflagged":     true,
+	"unkeyword":     true,
+	"unseen":        true,
+	"unselect":      true,
+	"unsubscribe":   true,
 }
